@@ -34,7 +34,8 @@ func (n *Node) has(s string) bool {
 	return false
 }
 
-// tagNum returns the number of a "tagN" parameter.
+// tagNum returns the number of a "tagN" parameter; a class option or `explicit` without one means tag
+// number 0 (Asn1Lax.tla, ClassImpliesTag0).
 func (n *Node) tagNum() (int, bool) {
 	for _, p := range n.P {
 		if strings.HasPrefix(p, "tag") {
@@ -43,7 +44,42 @@ func (n *Node) tagNum() (int, bool) {
 			}
 		}
 	}
+	if n.K == "explicit" || n.has("application") || n.has("private") {
+		return 0, true
+	}
 	return 0, false
+}
+
+// tagged: the node has an EXPLICIT or IMPLICIT tag of its own (Asn1Lax.tla, Tagged).
+func (n *Node) tagged() bool {
+	_, ok := n.tagNum()
+	return ok
+}
+
+// ASN.1 tag classes as they appear in the identifier octet
+const (
+	classUniversal   = 0
+	classApplication = 1
+	classContext     = 2
+	classPrivate     = 3
+)
+
+// readClass is the class of the identifier that the harness writes for a tagged node of a well-formed value:
+// the one the specification says Unmarshal expects (Asn1Lax.tla, ReadClass; both decoders are checked against
+// the verdicts that follow from it, encoding/asn1 as a test of the specification itself).
+func (n *Node) readClass() int {
+	switch {
+	case n.K == "explicit":
+		if n.has("application") {
+			return classApplication
+		}
+		return classContext
+	case n.has("private"):
+		return classPrivate
+	case n.has("application"):
+		return classApplication
+	}
+	return classContext
 }
 
 // numParam returns the number of a "<prefix>N" parameter ("len255", "body128").
@@ -122,19 +158,27 @@ var (
 	rdnTypes        = [2]reflect.Type{reflect.TypeOf(forkRDNSequence(nil)), reflect.TypeOf(stdRDNSequence(nil))}
 )
 
-// fieldTag renders the `asn1:"..."` tag of a struct field of shape n (laxHere adds the fork's "lax").
-func fieldTag(n *Node, laxHere bool) string {
+// fieldTag renders the `asn1:"..."` tag of a struct field of shape n - or the top-level parameter string of a
+// root node - (laxHere adds the fork's "lax"); rev writes the options in the opposite order (both packages get
+// the same string: the order of the options must not matter to either).
+func fieldTag(n *Node, laxHere, rev bool) string {
 	var parts []string
 	inner := n
 	if n.K == "explicit" {
 		parts = append(parts, "explicit")
 		inner = n.Kids[0]
 	}
-	if t, ok := n.tagNum(); ok {
+	if _, ok := n.numParam("tag"); ok {
+		t, _ := n.tagNum()
 		parts = append(parts, "tag:"+strconv.Itoa(t))
 	}
 	if n.has("optional") {
 		parts = append(parts, "optional")
+	}
+	for _, cls := range []string{"application", "private"} {
+		if n.has(cls) {
+			parts = append(parts, cls)
+		}
 	}
 	for _, src := range []*Node{n, inner} {
 		for _, p := range src.P {
@@ -161,7 +205,23 @@ func fieldTag(n *Node, laxHere bool) string {
 			out = append(out, p)
 		}
 	}
+	if rev {
+		for i, j := 0, len(out)-1; i < j; i, j = i+1, j-1 {
+			out[i], out[j] = out[j], out[i]
+		}
+	}
 	return strings.Join(out, ",")
+}
+
+// rootParams is the top-level parameter string of a shape: the field parameters of its root node.
+func rootParams(n *Node) string { return fieldTag(n, false, true) }
+
+// withLax adds the fork's "lax" to a parameter string.
+func withLax(params string) string {
+	if params == "" {
+		return "lax"
+	}
+	return params + ",lax"
 }
 
 func samePath(a, b []int) bool {
@@ -187,7 +247,7 @@ func goType(n *Node, fl flavor, laxAt, path []int) reflect.Type {
 		}
 		for i, k := range n.Kids {
 			kp := append(append([]int{}, path...), i+1)
-			tag := fieldTag(k, laxAt != nil && samePath(kp, laxAt))
+			tag := fieldTag(k, laxAt != nil && samePath(kp, laxAt), i%2 == 1)
 			f := reflect.StructField{Name: fmt.Sprintf("F%d", i+1), Type: goType(k, fl, laxAt, kp)}
 			if tag != "" {
 				f.Tag = reflect.StructTag(`asn1:"` + tag + `"`)
